@@ -272,9 +272,14 @@ def main(ctx, replay=None):
             ds.settings["DELTA_P"] = (target - pmin) / (ntv - 1)
             # (QHA's sampling step thins out QHA's own tables only: the decision is about the requested grid)
             ds.settings["DELTA_P_SAMPLE"] = ds.settings["DELTA_P"] * int(rng.choice([1, 2, 3]))
+            descending = bool(cls == "above" and done % 2 == 1)
+            if descending:
+                # the same overshooting pressures listed from the top down (P_MIN is then the highest one, the step negative)
+                step = ds.settings["DELTA_P"]
+                ds.settings.update({"P_MIN": target, "DELTA_P": -step, "DELTA_P_SAMPLE": -step})
             done += 1
             quota[cls] -= 1
-            case = {"abstract": [rv, p0, dp, cnt], "class": cls, "verdict": verdict, "reach_min": hmin, "reach_max": hmax, "P_MIN": pmin,
+            case = {"abstract": [rv, p0, dp, cnt], "class": cls, "verdict": verdict, "listed_descending": descending, "reach_min": hmin, "reach_max": hmax, "P_MIN": pmin,
                     "DELTA_P": ds.settings["DELTA_P"], "NTV": ntv}
             ctx.count(case)
             try:
